@@ -778,8 +778,18 @@ func runAll(c *run.Ctx) {
 			var polys []geom.Polygon
 			n := r.Range(2, 4)
 			for j := 0; j < n; j++ {
-				ox, oy := float64(50*j), float64(r.Range(0, 3))
-				switch r.Intn(3) {
+				ox, oy := float64(100*j), float64(r.Range(0, 3))
+				switch r.Intn(5) {
+				case 3: // notched member and a big neighbour whose tip sits inside the notch: removing the notch makes them overlap
+					d := float64(r.Range(6, 16))
+					polys = append(polys,
+						geom.NewPolygonXY([]float64{ox, oy, ox + 40, oy, ox + 40, oy + 16, ox + 40 - d, oy + 20, ox + 40, oy + 24, ox + 40, oy + 40, ox, oy + 40, ox, oy}),
+						geom.NewPolygonXY([]float64{ox + 38, oy + 20, ox + 80, oy, ox + 80, oy + 40, ox + 38, oy + 20}))
+				case 4: // big hole reaching into an outward bump of the shell: removing the bump cuts the hole
+					d := float64(2 * r.Range(3, 5))
+					polys = append(polys, geom.NewPolygonXY(
+						[]float64{ox, oy, ox + 40, oy, ox + 40, oy + 10, ox + 40 + d, oy + 20, ox + 40, oy + 30, ox + 40, oy + 40, ox, oy + 40, ox, oy},
+						[]float64{ox + 30, oy + 18, ox + 40 + d/2, oy + 18, ox + 40 + d/2, oy + 22, ox + 30, oy + 22, ox + 30, oy + 18}))
 				case 0: // tiny triangle
 					polys = append(polys, geom.NewPolygonXY([]float64{ox, oy, ox, oy + 1, ox + 1, oy, ox, oy}))
 				case 1: // spiky shape whose simplification self-intersects
@@ -800,7 +810,7 @@ func runAll(c *run.Ctx) {
 			}
 			k.In("g", shared.WKT(g))
 			k.Nontrivial(string(g.AsBinary()))
-			for _, th := range []float64{0.5, 1, 2, 3, 4, 6, 10, float64(r.Range(1, 30))} {
+			for _, th := range []float64{0.5, 1, 2, 3, 4, 6, 10, 11, 17, float64(r.Range(1, 30))} {
 				var res geom.Geometry
 				var err error
 				if k.Lib("nopanic", func() { res, err = g.Simplify(th) }) {
@@ -808,6 +818,7 @@ func runAll(c *run.Ctx) {
 				}
 				if err != nil {
 					k.Check("simplify-valid", true, "")
+					k.Count("simplify_collapse_errors", 1)
 					continue
 				}
 				var verr error
